@@ -39,12 +39,14 @@ class Lab:
         self.Probe = C["Probe"]
         self.log: list[tuple[str, int]] = []
         self.finalizer_fails = False
+        self.keep: list = []
         lab = self
 
         class LoggedProbe(self.Probe):
             def _get_render_data_(self, *, iteration):
                 d = super()._get_render_data_(iteration=iteration)
                 lab.log.append(("C", id(d)))
+                lab.keep.append(d)  # the data outlives the operation: prompt vs gc finalization
                 return d
 
             def _render_(self, render_data, render_args):
@@ -122,7 +124,9 @@ class Lab:
         finally:
             sys.stdout = old_stdout
             stubs.set_term(size=(8, 6))
+        self.log.append(("E", 0))
         del p
+        self.keep.clear()
         gc.collect()
         self.finalizer_fails = False
         events = [e for e, _ in self.log[start:]]
